@@ -69,13 +69,21 @@ def refAlive (env : Nat) (name : String) : M Bool := do
   let f ← getFrame env
   pure (lookupStore f.store name).isSome
 
-/-- `object.Value`: dereference (at most 100 hops) -/
-def valueOf (o : Obj) : M Obj :=
-  go 101 o
+/-- `object.Value`: dereference.  Every hop must lead to a strictly shallower environment (the
+cycle guard of `Value`), which bounds the number of hops; the fuel (one more than the number of
+frames) only makes the recursion structural. -/
+def valueOf (o : Obj) : M Obj := do
+  go ((← get).frames.size + 1) o
 where
   go : Nat → Obj → M Obj
-    | 0, _ => stop (.goPanic "Too many references")
-    | n + 1, .ref e name => do go n (← refValue e name)
+    | n + 1, .ref e name => do
+      let v ← refValue e name
+      match v with
+      | .ref e' _ =>
+        if (← getFrame e').depth ≥ (← getFrame e).depth then stop (.goPanic "Reference cycle")
+      | _ => pure ()
+      go n v
+    | 0, .ref .. => stop .fuel
     | _, o => pure o
 
 def isFuncObj : Obj → Bool
@@ -85,6 +93,12 @@ def isFuncObj : Obj → Bool
 /-- `(*Environment).TriggerNoCache` -/
 def triggerNoCache (e : Nat) : M Unit :=
   modifyFrame e fun f => { f with cantCache := true, getMiss := f.getMiss + 1 }
+
+/-- the reference `makeRef` hands out for `name` found in frame `o`: the original reference
+instead of a reference to a reference -/
+def refTo (o : Nat) (name : String) : Obj → Obj
+  | .ref e' n' => .ref e' n'
+  | _ => .ref o name
 
 /-- `(*Environment).makeRef` -/
 def makeRef (orig : Nat) (name : String) : M (Option Obj) := do
@@ -102,9 +116,7 @@ where
         match lookupStore fo.store name with
         | none => go fuel o
         | some obj =>
-          let r : Obj := match obj with
-            | .ref e' n' => .ref e' n'
-            | _ => .ref o name
+          let r : Obj := refTo o name obj
           modifyFrame orig fun f => { f with store := setStore f.store name r }
           -- only a constant of the top level scope is the same for every call
           let refDepth ← match r with
